@@ -14,9 +14,14 @@ package syn
 import (
 	"fmt"
 	"math"
+	"os"
+	"path/filepath"
 	"regexp"
+	"runtime"
 	"strconv"
 	"strings"
+	"sync"
+	"sync/atomic"
 	"time"
 	"unicode/utf8"
 
@@ -91,12 +96,81 @@ func Safely(f func() px.Value) (o Outcome) {
 	return Outcome{Kind: "value", Val: f()}
 }
 
-// ParseDeadline is the per-parse deadline (DESIGN §4 C06).
+// ParseDeadline is the per-call deadline (DESIGN §4 C06).
 var ParseDeadline = 2 * time.Second
 
+// A call into pcore that does not return cannot be stopped: its goroutine keeps a core busy (the original lexer on
+// `1e5`) or, worse, keeps allocating (the original PuppetQuote on U+FFFD appends to its buffer for ever).  Three
+// measures keep a check run bounded when that happens — on every shard and every re-run of the same check:
+//   * a process that saw one call not return answers `skipped` (n/a) for every later op;
+//   * a watchdog ends the process (exit 4) when its heap passes HeapLimit — the check driver then re-runs the
+//     culprit op alone and reports it as `crash`;
+//   * every such event is noted in a file shared by all harness processes of this check run (keyed by the parent
+//     pid); once MaxEvents are noted, every process answers `skipped` for everything: the violations are
+//     established by then and the remaining ops could only repeat them.
+const MaxEvents = 12
+const HeapLimit = 2 << 30
+
+var localTimeouts int32
+var watchdog sync.Once
+
+func budgetFile() string {
+	return filepath.Join(os.TempDir(), fmt.Sprintf("pxh-events-%d", os.Getppid()))
+}
+
+func noteEvent() {
+	if f, err := os.OpenFile(budgetFile(), os.O_APPEND|os.O_CREATE|os.O_WRONLY, 0644); err == nil {
+		_, _ = f.Write([]byte{'x'})
+		_ = f.Close()
+	}
+}
+
+func events() int64 {
+	st, err := os.Stat(budgetFile())
+	if err != nil {
+		return 0
+	}
+	if time.Since(st.ModTime()) > 30*time.Minute {
+		_ = os.Remove(budgetFile()) // left over from an earlier run whose pid was reused
+		return 0
+	}
+	return st.Size()
+}
+
+func startWatchdog() {
+	watchdog.Do(func() {
+		go func() {
+			var m runtime.MemStats
+			for {
+				time.Sleep(20 * time.Millisecond)
+				runtime.ReadMemStats(&m)
+				if m.HeapAlloc > HeapLimit {
+					noteEvent()
+					fmt.Fprintln(os.Stderr, "pxh: heap limit passed (a call into pcore allocates without bound); exiting")
+					os.Exit(4)
+				}
+			}
+		}()
+	})
+}
+
+// exhausted: should this process stop calling into pcore?
+func exhausted() bool {
+	return atomic.LoadInt32(&localTimeouts) > 0 || events() >= MaxEvents
+}
+
+func noteTimeout() {
+	atomic.AddInt32(&localTimeouts, 1)
+	noteEvent()
+}
+
 // Parse runs types.Parse(text) in its own goroutine with a deadline.  A parse that does not return is reported as
-// `timeout` (the goroutine is abandoned; it keeps spinning, which is why the deadline is short).
+// `timeout` (the goroutine is abandoned).
 func Parse(text string) Outcome {
+	startWatchdog()
+	if exhausted() {
+		return Outcome{Kind: "skipped"}
+	}
 	ch := make(chan Outcome, 1)
 	go func() {
 		ch <- Safely(func() px.Value { return types.Parse(text) })
@@ -105,8 +179,38 @@ func Parse(text string) Outcome {
 	case o := <-ch:
 		return o
 	case <-time.After(ParseDeadline):
+		noteTimeout()
 		return Outcome{Kind: "timeout"}
 	}
+}
+
+// Guarded runs f on its own goroutine (with c as that goroutine's current context) under the deadline.  ok = false:
+// f did not return (`timeout`) or was not started (`skipped`).
+func Guarded(c px.Context, f func()) (kind string, ok bool) {
+	startWatchdog()
+	if exhausted() {
+		return "skipped", false
+	}
+	done := make(chan interface{}, 1)
+	go func() {
+		defer func() { done <- recover() }()
+		px.DoWithContext(c, func(px.Context) { f() })
+	}()
+	select {
+	case e := <-done:
+		if e != nil {
+			panic(e)
+		}
+		return "", true
+	case <-time.After(ParseDeadline):
+		noteTimeout()
+		return "timeout", false
+	}
+}
+
+// Clean makes a detail text printable on one valid-UTF-8 line.
+func Clean(s string) string {
+	return strings.NewReplacer("\n", "\\n", "\r", "\\r").Replace(strings.ToValidUTF8(s, "\uFFFD"))
 }
 
 // InInput: the property's "line and column lie within the input".  Lines are 1-based; a column is accepted from 0
